@@ -1,4 +1,6 @@
 import FastorModel.Proofs.ViewsOdo
+import FastorModel.Proofs.ViewsIseq
+import FastorModel.Props.C02
 /-
 # C04 — Reading through an index or a slice returns exactly the selected elements
 
@@ -24,7 +26,7 @@ specialised constructors; every evaluator returns the *parent offsets* it reads,
   position of `D` is stored to, and the last store to `p ∈ D` is `f p` — here `f p` is the parent offset
   whose element lands at result position `p`.
 
-Not in these theorems (tied by the correspondence runs only): the `iseq` loops, expressions mixing several
+Not in these theorems (tied by the correspondence runs only): expressions mixing several
 views (each leaf is covered; the node-wise combination is C02), and that the real `SIMDVector` load / `set` /
 store are lane-wise (C08; here the symbolic runs use an ideal vector and the real types run against the oracle).
 -/
@@ -182,5 +184,32 @@ theorem ctorN_correct (v : View) (hwf : v.WF) (hcls : v.cls = .dynN ∨ v.cls = 
 
 example : lastWrite ((View.mk .dynN [3, 4, 9] [⟨1, 1, 2⟩, ⟨0, 2, 2⟩, ⟨0, 2, 4⟩]).ctorN 4 true [2, 2, 4]).writes 13
     = some (specOff [3, 4, 9] [⟨1, 1, 2⟩, ⟨0, 2, 2⟩, ⟨0, 2, 4⟩] [1, 1, 1]) := by decide
+
+/-- **immediate sequences** `A(iseq<F,L,S>{}…)` (BlockIndexing.h: nested counted loops with counters, every
+    element through scalar indexing): for every rank, extents and positive steps the (destination, source) pairs
+    of the loop nest are exactly `(rowMajor result j, rowMajor parent (F_k + j_k*S_k))`, `j` below the result
+    extents `ceil((L_k-F_k)/S_k)` — every result element is written, each from the documented element -/
+theorem iseq_correct (pd rd : List Nat) (tr : List (Nat × Nat × Nat)) (h : IseqOk pd rd tr) (w : Nat × Nat) :
+    w ∈ iseqLoop pd rd tr ↔ ∃ j, InRange rd j ∧ w = (rowMajor rd j, rowMajor pd (iseqSrc tr j)) :=
+  Views.iseqLoop_mem pd rd tr h w
+
+example : IseqOk [5, 6] [2, 2] [(0, 4, 2), (1, 6, 3)] := by simp [IseqOk, forCount]
+
+/-- **diagonal views** `diag(A)`: the offsets `eval_s(i)` / lane `l` of `eval(i)` read (`it*N + it`) are those of
+    the 1-D view of the flattened `n × n` parent with first 0 and step `n+1` (the model the driver runs, so that
+    `evalV_lanes` and `trivial_assign_correct` apply to it), and that offset is the diagonal element `A(i,i)` -/
+theorem diag_correct (n i : Nat) :
+    (View.mk .dyn1 [n * n] [⟨0, n + 1, n⟩]).evalS i = rowMajor [n, n] [i, i] ∧
+    (View.mk .dyn1 [n * n] [⟨0, n + 1, n⟩]).WF := by
+  constructor
+  · simp [View.evalS, rowMajor, horner]; ring
+  · simp [View.WF]
+
+/-- the loop bound `ROUND_DOWN(n,V)` of the consumers is the mask `n & ~(V-1)` in the source; for the
+    power-of-two widths the library uses it is the arithmetic `n / V * V` the model's loops run to
+    (the bit-level fact is `Fastor.C02.roundDown_pow2`) -/
+theorem round_down_is_mask (n e : Nat) (hn : n < 2 ^ 64) (he : e ≤ 64) :
+    Fastor.Expr.roundDown n (2 ^ e) = roundDownV n (2 ^ e) :=
+  Fastor.C02.roundDown_pow2 n e hn he
 
 end Fastor.C04
